@@ -585,6 +585,31 @@ pub fn generate(seed: u64, tier: &str, property: &str) -> RegScenario {
         comps.push(CompProbe { name: COMP_NAMES[0].to_string(), ctx: Default::default(), body: None });
     }
     comps.truncate(5);
+    // components that only operations of the history define (also failing ones: a refused batch
+    // must not leave its components in the global table)
+    let mut extra: Vec<String> = Vec::new();
+    for op in &h.ops {
+        let srcs: Vec<&String> = match op {
+            Op::AddRaw { source, .. } => vec![source],
+            Op::AddBatch { items } => items.iter().map(|x| &x.1).collect(),
+            _ => vec![],
+        };
+        for sr in srcs {
+            let mut pos = 0;
+            while let Some(p) = sr[pos..].find("component ") {
+                let at = pos + p + "component ".len();
+                let end = sr[at..].find('(').map(|e| at + e).unwrap_or(at);
+                let nm = sr[at..end].trim();
+                if !nm.is_empty() && nm.len() < 40 && nm.chars().all(|c| c.is_ascii_alphanumeric() || c == '.' || c == '_') && !comps.iter().any(|c| c.name == nm) && !extra.contains(&nm.to_string()) {
+                    extra.push(nm.to_string());
+                }
+                pos = at;
+            }
+        }
+    }
+    for nm in extra.into_iter().take(6) {
+        comps.push(CompProbe { name: nm, ctx: Default::default(), body: None });
+    }
     let contexts = vec![gen_context(&rng, 0), gen_context(&rng, 1), gen_context(&rng, 2)];
     RegScenario {
         family: "general".into(),
